@@ -151,6 +151,29 @@ pub fn run(input: &Value) -> Value {
           Err(e) => json!({"error": e.to_string()}),
         }
       }
+      #[cfg(feature = "fast_check")]
+      "imported_exports_add" => {
+        // C09 lattice kernel through the cfg(deno_graph_verif) hook: values as (kind, [(name, null | [members])])
+        fn val(v: &Value) -> deno_graph::fast_check::VerifImportedExports {
+          (
+            v["kind"].as_u64().unwrap() as u8,
+            v["entries"].as_array().unwrap().iter().map(|e| {
+              (e[0].as_str().unwrap().to_string(), e[1].as_array().map(|m| m.iter().map(|x| x.as_str().unwrap().to_string()).collect()))
+            }).collect(),
+          )
+        }
+        fn out(v: &deno_graph::fast_check::VerifImportedExports) -> Value {
+          let mut entries: Vec<Value> = v.1.iter().map(|(n, m)| {
+            let mut mm = m.clone();
+            if let Some(x) = mm.as_mut() { x.sort(); }
+            json!([n, mm])
+          }).collect();
+          entries.sort_by_key(|e| e[0].as_str().unwrap().to_string());
+          json!({"kind": v.0, "entries": if v.0 == 2 { Value::Array(entries) } else { json!([]) }})
+        }
+        let (after, delta) = deno_graph::fast_check::verif_imported_exports_add(val(&op["self"]), val(&op["x"]));
+        json!({"after": out(&after), "delta": delta.as_ref().map(out)})
+      }
       o => json!({"error": format!("unknown op {o}")}),
     });
   }
